@@ -1,0 +1,18 @@
+//go:build verif
+
+// Contracts for the verification machinery under /verif (contract-based deductive
+// verification). This file is comment-only, is excluded from every normal build by the
+// "verif" build tag, and declares nothing. See /verif/DESIGN.md §4.
+
+package slices
+
+// one result per element (thin: what each result is depends on the mapper, a function value).
+// Frame: Map itself writes only its fresh result; the effects of the mapper are the mapper's
+// (the generator's default for a call through an unknown function value is "total, pure",
+// listed as an assumption in the evidence).
+//@ func Map(vals, mapper) (r)
+//@   requires mapper != nil
+//@   ensures len(r) == len(vals)
+//@   assigns nothing
+//@   loop 1 (i):
+//@     invariant len(mapped) == i && own(mapped)
